@@ -318,6 +318,12 @@ def run(tier):
     rk = random_kills(ld, r, work, 4 if tier == 'quick' else 50)
     for msg in rk:
         failures.append(dict(kind='history', summary=msg, config={}))
+    from . import c10 as _c10
+    for f in _c10.falsy_family(ld, common.rng_for('C11-falsy'), 25 if tier == 'quick' else 400, disk_dir=work):
+        failures.append(f)
+    tf, ntemp = temp_dir_checks(ld)
+    for msg in tf:
+        failures.append(dict(kind='history', summary=msg, config=dict(kind='temp_dir')))
     ff, nforeign = foreign_dir_checks(ld, work)
     for msg in ff:
         failures.append(dict(kind='history', summary=msg, config=dict(kind='foreign_dir')))
@@ -328,7 +334,7 @@ def run(tier):
                rule='lifecycles over one directory (list- and dict-backed sources): open(reuse, clear) / get (either sign, numpy integer, string key) / slice / copy / release / reopen, all reuse x clear combinations, '
                     'sequential wrappers; kill histories run each pre-kill segment in a child process that SIGKILLs itself; non-trivial = >= 4 ops',
                traces_validated_against_impl=len(hist), disagreements_checked=len(bad), op_histogram=dict(opc),
-               kill_histories=NK, foreign_directory_runs=nforeign, random_instant_kills=4 if tier == 'quick' else 50,
+               kill_histories=NK, foreign_directory_runs=nforeign, temporary_directory_runs=ntemp, random_instant_kills=4 if tier == 'quick' else 50,
                samples=[dict(n=hist[i][0], segments=hist[i][1], result=results[i]) for i in (0, N, len(hist) - 1)],
                exhaustive=False)
     return dict(coverage=cov, failures=failures, assumptions=['one diskcache store is atomic and durable across kill -9 (SQLite)'])
@@ -393,6 +399,59 @@ def foreign_dir_checks(ld, work):
                 fails.append(f'{what}: raised {type(e).__name__}: {e}'[:300])
             finally:
                 shutil.rmtree(wd, ignore_errors=True)
+    return fails, runs
+
+
+def temp_dir_checks(ld):
+    """cache_dir=None: diskcache picks a temporary directory.  'removed at the last release iff clear=True' holds for it as for any
+    other directory: with clear=False it survives (and serves its examples to a reuse=True reopen without recomputation)"""
+    import gc
+    fails, runs = [], 0
+    for spelling in ('kw', 'positional', 'class'):
+        for clear in (False, True):
+            runs += 1
+            calls = collections.Counter()
+
+            def fn(i, calls=calls):
+                calls[i] += 1
+                return i * 10 + 1
+            up = ld.new({f'k{i}': i for i in range(3)}).map(fn)
+            path = None
+            try:
+                with warnings.catch_warnings():
+                    warnings.simplefilter('ignore')
+                    if spelling == 'kw': d = up.diskcache(clear=clear)
+                    elif spelling == 'positional': d = up.diskcache(None, False, clear)
+                    else: d = ld.core.DiskCacheDataset(up, clear=clear)
+                    path = d._cache.cache.directory
+                    got = [d[0], d['k2'], d[-2]]
+                    c = d.copy(freeze=True)
+                    del d
+                    gc.collect()
+                    mid = os.path.isdir(path)           # a copy still shares the cache
+                    got.append(c[0])
+                    del c
+                    gc.collect()
+                    after = os.path.isdir(path)
+                    what = f'diskcache with cache_dir=None ({spelling}), clear={clear}'
+                    if got != [1, 21, 11, 1] or not mid:
+                        fails.append(f'{what}: values {got}, directory present while a copy is alive: {mid}')
+                    elif after != (not clear):
+                        fails.append(f'{what}: after the last release the temporary directory {"still exists" if after else "is gone"}')
+                    elif not clear:
+                        d2 = up.diskcache(cache_dir=path, reuse=True, clear=True)
+                        before = dict(calls)
+                        again = [d2[0], d2[1], d2[2]]
+                        if again != [1, 11, 21] or dict(calls) != before:
+                            fails.append(f'{what}: reopened with reuse=True the surviving directory gave {again} with evaluations {dict(calls)} (before the reopen: {before})')
+                        del d2
+                        gc.collect()
+            except Exception as e:
+                fails.append(f'diskcache with cache_dir=None ({spelling}), clear={clear} raised {type(e).__name__}: {e}'[:300])
+            finally:
+                gc.collect()
+                if path and os.path.isdir(path):
+                    shutil.rmtree(path, ignore_errors=True)
     return fails, runs
 
 
@@ -514,6 +573,19 @@ def replay(payload):
     if not c:
         return True
     work = tempfile.mkdtemp(prefix='c11r_')
+    if c.get('kind') == 'falsy':
+        from . import c10 as _c10
+        try:
+            ff = _c10.falsy_family(ld, common.rng_for('C11-falsy'), 25, disk_dir=work)
+        finally:
+            shutil.rmtree(work, ignore_errors=True)
+        print('  falsy-example family:', [f['summary'][:200] for f in ff[:2]])
+        return bool(ff)
+    if c.get('kind') == 'temp_dir':
+        shutil.rmtree(work, ignore_errors=True)
+        tf, _ = temp_dir_checks(ld)
+        print('  temporary-directory family:', tf[:3])
+        return bool(tf)
     if c.get('kind') == 'foreign_dir':
         try:
             ff, _ = foreign_dir_checks(ld, work)
